@@ -222,6 +222,24 @@ theorem entryRows_subset {p : Nat × List Ev} {ty : Nat} {e : Ev} (h : e ∈ ent
   · exact mem_memOrder.mp (List.mem_filter.mp h).1
   · exact (List.mem_filter.mp h).1
 
+/-- Zones are consecutive chunks: concatenated they are the row list itself. -/
+theorem chunks_flatten (n : Nat) : ∀ (fuel : Nat) (xs : List Ev), xs.length < fuel →
+    (chunks n fuel xs).flatten = xs
+  | 0, xs, h => by omega
+  | fuel + 1, [], _ => by simp [chunks]
+  | fuel + 1, x :: xs, h => by
+    unfold chunks
+    split
+    · simp
+    · rename_i hn
+      have hlen : ((x :: xs).drop n).length < fuel := by
+        simp only [List.length_drop, List.length_cons] at h ⊢
+        omega
+      rw [List.flatten_cons, chunks_flatten n fuel _ hlen, List.take_append_drop]
+
+theorem zonesOfRows_flatten (n : Nat) (rows : List Ev) : (zonesOfRows n rows).flatten = rows :=
+  chunks_flatten n _ rows (Nat.lt_succ_self _)
+
 /-! ### Sorted label lists -/
 
 theorem pairwise_insertSorted {x : Nat} : ∀ {l : List Nat}, l.Pairwise (· ≤ ·) →
